@@ -44,6 +44,26 @@ RAISE_KINDS = {
     'raise-W':            "raise W('builtin-derived')",            # class W(ValueError): pass
     'raise-WK':           "raise WK('keyerror-derived')",          # class WK(KeyError): pass
     'raise-Udoc':         "raise Udoc('only a docstring')",        # class with docstring, no pass
+    'raise-from':         "raise ValueError('outer cause') from KeyError('inner cause')",
+    'raise-from-None':    "raise U('no context') from None",
+}
+# failing statements that span several lines (compound statements whose one failing part is marked)
+BLOCK_KINDS = {
+    'reraise-bare':   ['try:', '    y = 1 // (x - x)', 'except ZeroDivisionError:', '    raise'],
+    'raise-in-except': ['try:', '    y = 1 // (x - x)', 'except ZeroDivisionError:', "    raise U('while handling')"],
+    'raise-in-finally': ['try:', '    y = x + 1', 'finally:', "    raise RuntimeError('in finally')"],
+    'enter-raises':   ['with BadEnter():', '    y = 1'],
+    'exit-raises':    ['with BadExit():', '    y = 1'],
+    'getitem-raises': ['y = BoomIdx()[x]'],
+    'iter-raises':    ['for e%(uid)s in BoomIter():', '    y += 1'],
+    'getattr-raises': ['y = BoomAttr().anything'],
+    'call-object-raises': ['y = BoomCall()(x)'],
+    'str-format-raises': ["y = '%%d' %% 'not a number'"],
+    'unpack-raises':  ['y, z = [x]'],
+    'del-raises':     ['d%(uid)s = {}', 'del d%(uid)s[x]'],
+    'setitem-raises': ['t%(uid)s = (x, x)', 't%(uid)s[0] = x'],
+    'augassign-raises': ["y += 'text'"],
+    'global-missing': ['y = missing_global_%(uid)s + x'],
 }
 EXPR_KINDS = {
     'ZeroDivisionError':  ("1 // (x - x)", []),
@@ -73,12 +93,12 @@ FORMS = ['assign', 'augassign', 'expr', 'return', 'hdr-if', 'hdr-while', 'hdr-fo
          'callarg', 'listcomp', 'binop', 'tuple-assign', 'subscript-store', 'hdr-elif', 'not', 'compare', 'with-item']
 
 LINKS = ['direct', 'direct', 'direct', 'partial', 'lambda', 'listcomp-call', 'dnc', 'map', 'sorted', 'maxkey',
-         'nested-call', 'method']
+         'nested-call', 'method', 'kwargs', 'starargs', 'callable-object', 'staticmethod', 'partial-kw', 'filter', 'dictcomp-call']
 # links kept out of the uniform pool (drawn with a small probability): they exercise the shapes on which
 # the pinned code deviates (known findings): a lambda bound on its own line, a function calling itself
 EXTRA_LINKS = ['lambda-var', 'self-rec']
 # links after which the callee (and everything below) runs unconverted
-UNCONVERTED_LINKS = {'dnc', 'map', 'sorted', 'maxkey'}
+UNCONVERTED_LINKS = {'dnc', 'map', 'sorted', 'maxkey', 'filter'}
 
 CONTEXTS = ['plain', 'if', 'else', 'elif', 'while', 'while-continue', 'while-break', 'for', 'for-continue',
             'for-break', 'for-list', 'try-finally', 'try-except', 'except', 'finally', 'with', 'with-as',
@@ -139,12 +159,60 @@ class CM:
         return False
 
 
+class BadEnter:
+    def __enter__(self):
+        raise ValueError('enter failed')
+
+    def __exit__(self, *exc):
+        return False
+
+
+class BadExit:
+    def __enter__(self):
+        return self
+
+    def __exit__(self, *exc):
+        raise RuntimeError('exit failed')
+
+
+class BoomIdx:
+    def __getitem__(self, k):
+        raise IndexError('custom getitem %r' % (k,))
+
+
+class BoomIter:
+    def __iter__(self):
+        return self
+
+    def __next__(self):
+        raise RuntimeError('iteration failed')
+
+
+class BoomAttr:
+    def __getattr__(self, name):
+        raise AttributeError('no attribute %s here' % name)
+
+
+class BoomCall:
+    def __call__(self, v):
+        tag_ = '@TAG@'
+        raise TypeError('called with %r' % (v,))
+
+
 class Obj:
     def __init__(self, fn):
         self.fn = fn
 
     def call(self, x):
         return self.fn(x)
+
+    def __call__(self, x):
+        tag_ = '@TAG@'
+        return self.fn(x)
+
+    @staticmethod
+    def scall(fn, x):
+        return fn(x)
 
 '''
 
@@ -313,6 +381,20 @@ def _call_expr(link, callee):
         return 'max([x, x + 1], key=%s)' % callee
     if link == 'method':
         return 'Obj(%s).call(x)' % callee
+    if link == 'kwargs':
+        return '%s(x=x)' % callee
+    if link == 'starargs':
+        return '%s(*[x])' % callee
+    if link == 'callable-object':
+        return 'Obj(%s)(x)' % callee
+    if link == 'staticmethod':
+        return 'Obj.scall(%s, x)' % callee
+    if link == 'partial-kw':
+        return 'functools.partial(%s, x=x)()' % callee
+    if link == 'filter':
+        return 'list(filter(%s, [x]))' % callee
+    if link == 'dictcomp-call':
+        return '{v: %s(v) for v in [x]}[x]' % callee
     raise ValueError(link)
 
 
@@ -326,7 +408,11 @@ def random_spec(rng, tier='quick'):
               'fillers': rng.random() < 0.8,
               'sub': rng.randrange(1 << 30)}
         if leaf:
-            if rng.random() < 0.45:
+            r = rng.random()
+            if r < 0.12:
+                fn['kind'] = rng.choice(sorted(BLOCK_KINDS))
+                fn['form'] = 'block'
+            elif r < 0.5:
                 fn['kind'] = rng.choice(sorted(RAISE_KINDS))
                 fn['form'] = 'stmt'
             else:
@@ -377,6 +463,9 @@ def build(spec, tag=''):
         if leaf:
             if fn['form'] == 'stmt':
                 site = [RAISE_KINDS[fn['kind']]]
+            elif fn['form'] == 'block':
+                uid = ids.new()
+                site = [l % {'uid': uid} for l in BLOCK_KINDS[fn['kind']]]
             else:
                 E, setup = EXPR_KINDS[fn['kind']]
                 uid = ids.new()
@@ -409,9 +498,10 @@ def build(spec, tag=''):
             head.append('def %s(x):' % name)
             body = ['y = 0', 'z = 0'] + lines + ['return y']
         defs.append('\n'.join(head + _indent(body)) + '\n')
-    src = PRELUDE.replace('def call(', 'def call%s(' % T) + '\n\n'.join(defs)
+    src = PRELUDE.replace('@TAG@', tag or 'untagged') + '\n\n'.join(defs)
     if T:
-        src = src.replace('.call(x)', '.call%s(x)' % T)
+        for m in ('call', 'scall'):
+            src = src.replace('def %s(' % m, 'def %s%s(' % (m, T)).replace('.%s(' % m, '.%s%s(' % (m, T))
     return {'src': src, 'entry': 'f1' + T, 'args': [spec['x']], 'fn_conv': fn_conv}
 
 
